@@ -192,6 +192,10 @@ def run_harness(ctx, binp, inp, label, timeout=1500):
     out = ctx.subdir("c14-out-" + label)
     rc, txt = ctx.run_test(binp, "^TestVerifC14$", {"VERIF_IN": path, "VERIF_OUT": out}, timeout=timeout, label=label)
     if rc != 0:
+        stuck = os.path.join(out, "stuck.txt")
+        if os.path.exists(stuck):
+            with open(stuck) as f:
+                txt += "\n==== goroutines of the stuck run ====\n" + f.read()
         ctx.save_log("harness-" + label, txt)
         raise Undecided("C14 harness (%s) failed (rc=%d): %s" % (label, rc, txt[-1500:]))
     with open(os.path.join(out, "summary.json")) as f:
@@ -279,7 +283,7 @@ def run(ctx, skip_exhaustive=False):
             ("C14_chunks.cfg", "g_chunks3", {"NChunks1": 3, "MaxArrive": 3, "MaxBad": 1}),
             ("C14_pool.cfg", "g_pool", {"MaxChurn": 2, "MaxBad": 1}),
             ("C14_gpool.cfg", "g_pool2", {"MaxBad": 2}),
-            ("C14_twin.cfg", "g_twin", {"MaxChurn": 2, "MaxBad": 1}),
+            ("C14_twin.cfg", "tw_twin", {"MaxChurn": 2, "MaxBad": 1}),
             ("C14_fetch.cfg", "g_fetch", {"Fetchers": 2, "MaxArrive": 2, "MaxBad": 1}),
         ]
 
@@ -291,8 +295,12 @@ def run(ctx, skip_exhaustive=False):
     graph_res = list(pool.map(graph, graphs))
     scheds = list(attack)
     graph_states = 0
-    for r, nstates, ss in graph_res:
-        graph_states += nstates
+    twin_states = 0
+    for (base, label, _c), (r, nstates, ss) in zip(graphs, graph_res):
+        if label.startswith("tw_"):
+            twin_states += nstates    # ranking ties are decided by Go map order: not part of the exhaustive claim
+        else:
+            graph_states += nstates
         scheds += ss
 
     # ---- 5. simulation of the large config -> schedules
@@ -346,7 +354,7 @@ def run(ctx, skip_exhaustive=False):
     add_violations(verdict, vf)
     add_violations(verdict, vp)
     drift = vd["drift"] + vf["drift"] + vp["drift"]
-    graph_cut = [i for i in (sum_d.get("skipped_ids") or []) if not i.startswith("attack/") and not i.startswith("sim/")]
+    graph_cut = [i for i in (sum_d.get("skipped_ids") or []) if i.startswith("g_")]
 
     distinct = set()
     outcomes = {}
@@ -375,7 +383,8 @@ def run(ctx, skip_exhaustive=False):
         "traces_validated_against_impl": vd["runs"] + vf["runs"] + vp["runs"],
         "evaluations": len(rows_d) + len(rows_f) + len(rows_p),
         "distinct_nontrivial": len(distinct),
-        "rule": "every state of the act-augmented TMStateSync graphs (chunk / pool / fetcher facets, Atomic) reached by replaying "
+        "rule": "every state of the act-augmented TMStateSync graphs (chunk / pool / fetcher facets, Atomic; the twin-snapshot graph too, "
+                "as far as Go's map order decides the ranking tie the same way) reached by replaying "
                 "its BFS path on a real syncer+chunkQueue+snapshotPool (gated app and state provider, driver-called AddChunk / "
                 "Allocate / requestChunk); plus %d simulated behaviours of C14_sim (2 twin snapshots x 3 chunks x 2 peers, <= 6 "
                 "non-accept answers), the %d counterexamples of the weakened specs as attack schedules, and %d seeded adaptive "
@@ -389,6 +398,7 @@ def run(ctx, skip_exhaustive=False):
         "state_provider_answers": sum(1 for r in rows_p if r.get("ev") == "SP" and r.get("ok")),
         "tlc_runs": ctx.tlc_stats,
         "graph_states_replayed": graph_states,
+        "twin_graph_states_replayed_where_the_tie_allowed": twin_states,
         "schedules_replayed": len(scheds),
         "schedules_cut_short": sum_d.get("skipped_runs"),
         "schedule_steps_not_applicable": sum_d.get("skipped_steps"),
